@@ -4,6 +4,7 @@ go 1.23
 
 require (
 	github.com/XiaoMi/Gaea v0.0.0
+	github.com/gin-gonic/gin v1.7.7
 	pgregory.net/rapid v1.3.0
 )
 
@@ -17,7 +18,6 @@ require (
 	github.com/emirpasic/gods v1.12.0 // indirect
 	github.com/gin-contrib/gzip v0.0.1 // indirect
 	github.com/gin-contrib/sse v0.1.0 // indirect
-	github.com/gin-gonic/gin v1.7.7 // indirect
 	github.com/go-ini/ini v1.42.0 // indirect
 	github.com/go-playground/locales v0.13.0 // indirect
 	github.com/go-playground/universal-translator v0.17.0 // indirect
